@@ -15,20 +15,20 @@ import (
 )
 
 type HSpec struct {
-	Fn        string         `json:"fn"` // "<rel pkg>.<Func>"
-	Quick     map[string]int `json:"quick"`
-	Thorough  map[string]int `json:"thorough"`
-	SkipQuick bool           `json:"skip_quick"`
-	MapOrder  string         `json:"map_order"`
-	PanicIsOK bool           `json:"panic_is_ok"`
-	PoolDrain bool           `json:"pool_drain"`
-	Fuel      int64          `json:"fuel"`
-	Reach     []string       `json:"reach"` // vacuity witnesses that must be reached
-	MergeOff  bool           `json:"merge_off"`
-	Automaton int            `json:"automaton"` // >0: state-merged exploration, value = cap on abstract states
-	LockDisc  bool           `json:"lock_discipline"`
-	Corpus    bool           `json:"corpus"`    // translator validation on the repository's test corpus
-	CorpusLoop string        `json:"corpus_loop"` // "Schema" / "Enum" / "Doc": run once per corpus text of that kind
+	Fn         string         `json:"fn"` // "<rel pkg>.<Func>"
+	Quick      map[string]int `json:"quick"`
+	Thorough   map[string]int `json:"thorough"`
+	SkipQuick  bool           `json:"skip_quick"`
+	MapOrder   string         `json:"map_order"`
+	PanicIsOK  bool           `json:"panic_is_ok"`
+	PoolDrain  bool           `json:"pool_drain"`
+	Fuel       int64          `json:"fuel"`
+	Reach      []string       `json:"reach"` // vacuity witnesses that must be reached
+	MergeOff   bool           `json:"merge_off"`
+	Automaton  int            `json:"automaton"` // >0: state-merged exploration, value = cap on abstract states
+	LockDisc   bool           `json:"lock_discipline"`
+	Corpus     bool           `json:"corpus"`      // translator validation on the repository's test corpus
+	CorpusLoop string         `json:"corpus_loop"` // "Schema" / "Enum" / "Doc": run once per corpus text of that kind
 }
 
 type CSpec struct {
@@ -101,19 +101,19 @@ func (k *KnownFinding) matches(prop string, v *Violation) bool {
 }
 
 type harnessEvidence struct {
-	Harness    string            `json:"harness"`
-	Params     map[string]int    `json:"params"`
-	Paths      int               `json:"paths"`
-	Outcomes   map[string]int    `json:"outcomes"`
-	Asserts    int               `json:"assertions_discharged"`
-	Queries    int               `json:"solver_queries"`
-	SolverS    float64           `json:"solver_s"`
-	Instrs     int64             `json:"ssa_instructions_executed"`
-	WallS      float64           `json:"wall_s"`
-	Reached    map[string]int    `json:"vacuity_witnesses"`
-	Inconcl    map[string]int    `json:"inconclusive,omitempty"`
-	Truncated  bool              `json:"truncated,omitempty"`
-	Violations int               `json:"violations"`
+	Harness    string         `json:"harness"`
+	Params     map[string]int `json:"params"`
+	Paths      int            `json:"paths"`
+	Outcomes   map[string]int `json:"outcomes"`
+	Asserts    int            `json:"assertions_discharged"`
+	Queries    int            `json:"solver_queries"`
+	SolverS    float64        `json:"solver_s"`
+	Instrs     int64          `json:"ssa_instructions_executed"`
+	WallS      float64        `json:"wall_s"`
+	Reached    map[string]int `json:"vacuity_witnesses"`
+	Inconcl    map[string]int `json:"inconclusive,omitempty"`
+	Truncated  bool           `json:"truncated,omitempty"`
+	Violations int            `json:"violations"`
 }
 
 func viaKey(v *Violation) string {
@@ -166,6 +166,7 @@ func runCheck(args []string) int {
 	type passCase struct {
 		c   ReplayCase
 		obs map[string]string
+		why string
 	}
 	var passCases []passCase
 	var diffSamples []DiffSample
@@ -256,11 +257,75 @@ func runCheck(args []string) int {
 			if i >= 24 {
 				break
 			}
-			pc := passCase{ReplayCase{Harness: r.Harness, Label: "", Inputs: m, Params: params}, r.PassObs[i]}
+			pc := passCase{ReplayCase{Harness: r.Harness, Label: "", Inputs: m, Params: params}, r.PassObs[i], "the inputs of a path the engine passed"}
 			if i < len(r.PassPBytes) {
 				pc.c.PBytes = r.PassPBytes[i]
 			}
 			passCases = append(passCases, pc)
+		}
+		// witnesses of paths the engine could not finish (unsupported construct, fuel): run them natively
+		for i, m := range r.Probes {
+			if i >= 40 {
+				break
+			}
+			pc := passCase{ReplayCase{Harness: r.Harness, Label: "", Inputs: m, Params: params}, nil, "the witness of a path the engine could not finish"}
+			if i < len(r.ProbePBytes) {
+				pc.c.PBytes = r.ProbePBytes[i]
+			}
+			if i < len(r.ProbeParams) {
+				pc.c.Params = r.ProbeParams[i]
+			}
+			passCases = append(passCases, pc)
+		}
+	}
+
+	// ---- cross-replay of passing paths
+	pcByPkg := map[string][]passCase{}
+	for _, pc := range passCases {
+		p := pkgOfHarness(pc.c.Harness)
+		pcByPkg[p] = append(pcByPkg[p], pc)
+	}
+	for _, pcs := range pcByPkg {
+		var cases []ReplayCase
+		for _, pc := range pcs {
+			cases = append(cases, pc.c)
+		}
+		res, err := nb.Replay(cases)
+		if err != nil {
+			inconcl = append(inconcl, "native cross-replay failed: "+err.Error())
+			continue
+		}
+		for i, rr := range res {
+			bad := ""
+			switch {
+			case len(rr.Failed) > 0 || rr.Panic != "":
+				// the natively compiled library fails the assertion on these concrete inputs: a genuine
+				// counterexample whatever the engine made of the path (it is replayed again below)
+				label := "uncaught-panic"
+				if len(rr.Failed) > 0 {
+					label = rr.Failed[0]
+				}
+				allViol = append(allViol, Violation{Label: label, Harness: cases[i].Harness, Inputs: cases[i].Inputs, Params: cases[i].Params,
+					PBytes: cases[i].PBytes, Observe: rr.Observed, Detail: "found by native execution of " + pcs[i].why})
+				continue
+			case pcs[i].obs == nil:
+				// an unfinished path: only a native failure is informative
+			case rr.Assumes > 0:
+				bad = "assumption violated natively"
+			case rr.Underrun:
+				bad = "native run consumed more inputs than the engine created"
+			default:
+				for k, ev := range pcs[i].obs {
+					if nv, ok := rr.Observed[k]; ok && nv != ev && ev != "<opaque>" {
+						bad = fmt.Sprintf("observation %s differs: engine %s native %s", k, ev, nv)
+					}
+				}
+			}
+			if bad != "" {
+				inconcl = append(inconcl, fmt.Sprintf("cross-replay mismatch (%s inputs=%s): %s", cases[i].Harness, renderInputs(cases[i].Inputs), bad))
+			} else {
+				validated++
+			}
 		}
 	}
 
@@ -328,48 +393,6 @@ func runCheck(args []string) int {
 				}
 			} else {
 				inconcl = append(inconcl, fmt.Sprintf("counterexample not reproduced natively: %s %s inputs=%s native=%+v", v.Harness, v.Label, renderInputs(v.Inputs), rr))
-			}
-		}
-	}
-
-	// ---- cross-replay of passing paths
-	pcByPkg := map[string][]passCase{}
-	for _, pc := range passCases {
-		p := pkgOfHarness(pc.c.Harness)
-		pcByPkg[p] = append(pcByPkg[p], pc)
-	}
-	for _, pcs := range pcByPkg {
-		var cases []ReplayCase
-		for _, pc := range pcs {
-			cases = append(cases, pc.c)
-		}
-		res, err := nb.Replay(cases)
-		if err != nil {
-			inconcl = append(inconcl, "native cross-replay failed: "+err.Error())
-			continue
-		}
-		for i, rr := range res {
-			bad := ""
-			switch {
-			case len(rr.Failed) > 0:
-				bad = "assertion fails natively on a path the engine passed: " + strings.Join(rr.Failed, ",")
-			case rr.Panic != "":
-				bad = "native panic on a path the engine passed: " + rr.Panic
-			case rr.Assumes > 0:
-				bad = "assumption violated natively"
-			case rr.Underrun:
-				bad = "native run consumed more inputs than the engine created"
-			default:
-				for k, ev := range pcs[i].obs {
-					if nv, ok := rr.Observed[k]; ok && nv != ev && ev != "<opaque>" {
-						bad = fmt.Sprintf("observation %s differs: engine %s native %s", k, ev, nv)
-					}
-				}
-			}
-			if bad != "" {
-				inconcl = append(inconcl, fmt.Sprintf("cross-replay mismatch (%s inputs=%s): %s", cases[i].Harness, renderInputs(cases[i].Inputs), bad))
-			} else {
-				validated++
 			}
 		}
 	}
